@@ -336,6 +336,8 @@ func c01Settled(run *evid.Run, n int, churn bool) (evals, placements int) {
 	lns = map[int][]*e4.StampListener{}
 	if !churn && n >= 2 {
 		evals += c01GoAway(run, nodes, func() bool { return settle(0) })
+		evals += c01TLS(run, "C01")
+		evals += c01Dialer(run)
 	}
 	return
 }
